@@ -79,6 +79,12 @@ Round 8: `sep.join(self.gen(..))` with a generator method is spliced as direct e
 `return {..}` of a method of the class; a template filled by successive `text = text.replace('$x', value)` steps where an
 earlier value is computed by the class (task data) is refuted - inserted text is scanned again by the later replacements.
 
+Round 9: an `io.StringIO()` buffer (`out.write(X)`, `out.getvalue()`) is read as a text accumulator; a payload list built by a
+method (`'links': self.__links()`) is hoisted and spliced; the payload may be serialised by a one-return helper of the class,
+also one with **kwargs (its replace chain is then checked like a local one); sections fetched as `M.get(k, [])` / `M[k]` for
+`k in M.keys()` are accepted, `for k in (<other list> or M.keys())` is refuted (unlisted sections are dropped); "nothing found"
+refutations treat every call the rule cannot read as hidden text.
+
 Engine limitations worked around here (helpers below, nothing under sa/ was changed): string-building normalisation (`parts`),
 inlining of multi-statement single-return helpers (`deep`), path enumeration with event counts (`paths`, DESIGN 3.7 is not in
 sa/), structural loop nesting (`loop_chains`), accumulator recognition (`Acc`), a propositional evaluator for branch conditions,
@@ -870,7 +876,61 @@ class Canon:
                 self.touched = again = True
                 break
 
+    def buffers_to_text(self):
+        """`out = StringIO(); out.write(X) ...; return out.getvalue()`  ->  `out = ''; out += X ...; return out`
+        (only when every use of the buffer is one of these three forms)"""
+        imp = self.f0.module.imports
+        for st0 in list(walk_no_nested(self.node)):
+            if not (isinstance(st0, ast.Assign) and len(st0.targets) == 1 and isinstance(st0.targets[0], ast.Name) and
+                    isinstance(st0.value, ast.Call) and not st0.value.args and not st0.value.keywords):
+                continue
+            c = st0.value
+            if not ((imp.get('StringIO') == 'io.StringIO' and match("StringIO", c.func)) or
+                    (imp.get('io') == 'io' and match("io.StringIO", c.func))):
+                continue
+            x = st0.targets[0].id
+            ok, writes, reads = {id(st0.targets[0])}, [], []
+            for n in walk_no_nested(self.node, include_lambdas=True):
+                if isinstance(n, ast.Expr) and isinstance(n.value, ast.Call) and match(f"{x}.write($v)", n.value):
+                    writes.append(n)
+                    ok.add(id(n.value.func.value))
+                elif isinstance(n, ast.Call) and match(f"{x}.getvalue()", n) :
+                    reads.append(n)
+                    ok.add(id(n.func.value))
+            if any(isinstance(n, ast.Name) and n.id == x and id(n) not in ok for n in walk_no_nested(self.node, include_lambdas=True)):
+                continue
+            if sum(1 for n in walk_no_nested(self.node) if isinstance(n, ast.Assign) and any(
+                    isinstance(t_, ast.Name) and t_.id == x for t_ in n.targets)) != 1:
+                continue
+            wr = {id(w): w for w in writes}
+
+            def rec(body):
+                out = []
+                for st in body:
+                    if id(st) in wr:
+                        out.append(self.emit(x, False, st.value.args[0], st))
+                        continue
+                    if not isinstance(st, (ast.FunctionDef, ast.AsyncFunctionDef, ast.ClassDef)):
+                        for fld in ('body', 'orelse', 'finalbody'):
+                            b = getattr(st, fld, None)
+                            if isinstance(b, list) and b and isinstance(b[0], ast.stmt):
+                                setattr(st, fld, rec(b))
+                    out.append(st)
+                return out
+            st0.value = ast.Constant(value='')       # StringIO(<initial>) is not accepted: writes would overwrite it
+            self.node.body = rec(self.node.body)
+            rd = {id(r) for r in reads}
+
+            class T(ast.NodeTransformer):
+                def visit_Call(self, n):
+                    if id(n) in rd:
+                        return ast.copy_location(_name(x), n)
+                    return self.generic_visit(n)
+            T().visit(self.node)
+            self.touched = True
+
     def run(self) -> Func:
+        self.buffers_to_text()
         self.alias_locals()
         self.return_expression()
         for _ in range(10):
@@ -1154,6 +1214,7 @@ class Canon:
     # ------------------------------------------------------------------ list-of-entries builders (DHTMLX payload)
     def run_lists(self) -> Func:
         """x = [E for ..] / x.extend(E for ..) -> loops with x.append(E);  x.append(self.h(..)) -> statements of h, x.append(<value>)"""
+        self.hoist_payload_lists()
         for _ in range(6):
             self.changed = False
             lists = {n.id for d in ast.walk(self.node) if isinstance(d, ast.Dict) for n in d.values if isinstance(n, ast.Name)} | \
@@ -1168,6 +1229,40 @@ class Canon:
         ast.fix_missing_locations(self.node)
         import dataclasses
         return dataclasses.replace(self.f0, node=self.node)
+
+    def hoist_payload_lists(self):
+        """{'links': self.h(..)} in a top-level statement, h a list builder (one trailing return): the statements of h are put
+        before that statement and the call is replaced by h's list"""
+        body = self.node.body
+        i = 0
+        while i < len(body):
+            st = body[i]
+            done = False
+            for d in ast.walk(st) if isinstance(st, (ast.Return, ast.Assign, ast.Expr)) else []:
+                vals_ = d.values if isinstance(d, ast.Dict) else [k.value for k in d.keywords] if (
+                    isinstance(d, ast.Call) and isinstance(d.func, ast.Name) and d.func.id == 'dict') else []
+                for v in vals_:
+                    if id(v) in self.dead or not isinstance(v, ast.Call):
+                        continue
+                    h = self.spliceable(v)
+                    blk = self.splice(h, v, st) if h is not None else None
+                    if blk is None or not isinstance(blk[1], ast.Name):
+                        self.dead.add(id(v))
+                        continue
+                    val = blk[1]
+
+                    class T(ast.NodeTransformer):
+                        def visit_Call(self, n):
+                            return ast.copy_location(val, n) if n is v else self.generic_visit(n)
+                    T().visit(st)
+                    body[i:i] = blk[0]
+                    i += len(blk[0])
+                    self.touched = done = True
+                    break
+                if done:
+                    break
+            if not done:
+                i += 1
 
     def list_block(self, stmts: List[ast.stmt], lists: set) -> List[ast.stmt]:
         out: List[ast.stmt] = []
@@ -2100,10 +2195,16 @@ def opaque_values(ctx, f: Func, e: 'Emission') -> List[ast.AST]:
                 if ds and not all(d.kind in ('for', 'unpack', 'param') for d in ds):
                     out.append(v)         # a local the Expander could not resolve (loop variables / parameters are data)
                     break
-            elif isinstance(x, ast.Call) and helper_of(ctx, f, x) is not None:
-                out.append(v)
+            elif isinstance(x, ast.Call) and (helper_of(ctx, f, x) is not None or not (
+                    (isinstance(x.func, ast.Attribute) and x.func.attr in _TEXT_METHODS) or
+                    (isinstance(x.func, ast.Name) and x.func.id in ('str', 'int', 'len', 'repr', 'format', _MARK)))):
+                out.append(v)             # a call whose result the rule cannot read (package helper, buffer.getvalue(), ..)
                 break
     return out
+
+
+_TEXT_METHODS = ('replace', 'format', 'strftime', 'join', 'get', 'items', 'keys', 'values', 'lower', 'upper', 'strip', 'title',
+                 'isoformat', 'rstrip', 'lstrip')
 
 
 def line_roles(ctx, f: Func, ps):
@@ -2185,8 +2286,11 @@ def check_partition(ctx, o, G: Gantt, M: str, reader: ast.For) -> bool:
         elif isinstance(st, ast.For):
             it = strip_seq(st.iter)
             if match(f"{M}.items()", it) or match(f"{M}.values()", it) or match(f"{M}.keys()", it) or match(M, it) or \
-                    match(f"{M}[$k]", it):
+                    match(f"{M}[$k]", it) or match(f"{M}.get($k, $d)", it):
                 consumed |= {id(n) for n in ast.walk(st.iter) if isinstance(n, ast.Name) and n.id == M}
+        if isinstance(st, ast.Assign) and len(st.targets) == 1 and isinstance(st.targets[0], ast.Name) and st.targets[0].id != M and \
+                (match(f"{M}.get($k, $d)", st.value) or match(f"{M}.get($k)", st.value) or match(f"{M}[$k]", st.value)):
+            consumed.add(id(st.value.func.value if isinstance(st.value, ast.Call) else st.value.value))   # read-only lookup
     for par in walk_no_nested(f.node, include_lambdas=True):
         kids = []
         if isinstance(par, ast.Call) and isinstance(par.func, ast.Name) and par.func.id in ('len', 'bool') and not par.keywords:
@@ -2325,6 +2429,20 @@ def gantt_once(ctx, o):
             elif isinstance(P.target, ast.Name) and isinstance(raw, ast.Subscript) and isinstance(raw.value, ast.Name) and \
                     match(P.target.id, raw.slice) and (match(raw.value.id, pit) or match(f"{raw.value.id}.keys()", pit)):
                 kvar, M = P.target.id, raw.value.id
+            if M is None and isinstance(P.target, ast.Name):
+                # for k in <keys>: v = M.get(k, []) / M[k]; for task in v
+                rx = strip_seq(it)
+                mg = match("$m.get($k, $d)", rx) or match("$m.get($k)", rx) or match("$m[$k]", rx)
+                if mg and isinstance(mg['m'], ast.Name) and match(P.target.id, mg['k']) and isinstance(raw, ast.Name):
+                    Mx = mg['m'].id
+                    if match(Mx, pit) or match(f"{Mx}.keys()", pit) or match(f"list({Mx})", P.iter):
+                        kvar, M = P.target.id, Mx
+                    elif isinstance(pit, ast.BoolOp) and isinstance(pit.op, ast.Or) and \
+                            any(match(Mx, strip_seq(x_)) or match(f"{Mx}.keys()", strip_seq(x_)) for x_ in pit.values[1:]):
+                        o.refute(f, P, P.iter, f"the sections are taken from `{src(pit.values[0])[:50]}` when it is given and only "
+                                               f"otherwise from the section map `{Mx}`: every section of `{Mx}` that is not listed "
+                                               f"there is dropped together with its task lines (expected a loop over all keys of `{Mx}`)")
+                        continue
             if M is not None:
                 atoms = {id(L): 'tasks'}
                 heads = []
@@ -3193,6 +3311,28 @@ def check_dhtmlx(ctx, O):
                   and (match("[]", st.value) or match("list()", st.value))}
     R = Expander(prog, f, ctx.typer).expand(ret.value, stop=containers)
     base_, chain = sanitiser(R)
+    for _ in range(3):
+        # `return self.__to_json({...}, indent=2)`: a serialising helper with one return (extra keywords go to its **kwargs)
+        h = helper_of(ctx, f, base_) if isinstance(base_, ast.Call) else None
+        if h is None or h == f or not isinstance(h.node, ast.FunctionDef):
+            break
+        body = single_return_value(ctx, h)
+        a_ = h.node.args
+        params = [x.arg for x in a_.posonlyargs + a_.args]
+        args = ([base_.func.value] if h.kind in ('method', 'classmethod') else []) + list(base_.args)
+        if body is None or len(args) > len(params) or any(isinstance(x, ast.Starred) for x in args):
+            break
+        sub = dict(zip(params, args))
+        for k in base_.keywords:
+            if k.arg in params and k.arg not in sub:
+                sub[k.arg] = k.value
+            elif not (a_.kwarg and k.arg is not None):
+                sub = None
+                break
+        if sub is None or any(p_ not in sub for p_ in params[:len(params) - len(a_.defaults)]):
+            break
+        inner, chain2 = sanitiser(subst(body, sub))
+        base_, chain = inner, chain2 + chain
     has_json = f.module.imports.get('json') == 'json'
     m = None
     if isinstance(base_, ast.Call) and len(base_.args) == 1 and (
